@@ -25,6 +25,7 @@ type Mode struct {
 	WriteFail   bool // injected I/O error on a persisting call
 	ForkReload  int  // reload a fork of both DBs after every event: 0 never, n = every n-th event
 	ForkResume  int  // continue that many forks per run to wind-down (behavioural layer)
+	StaleWrites bool // other subsystems write status fields through their own (stale) handle
 	StripDLP    bool // sometimes strip the data-loss-protect fields
 	DurableRead bool // re-read LocalCommitment from the DB at every release (C06)
 	MaxSteps    int
@@ -75,6 +76,7 @@ type Sim struct {
 	Fwd     [2]map[uint64]*FwdRec
 	lastSig [2][]byte
 	forkNo  int
+	staleWrites int
 	// concurrency probe: both sides had unacked work at once
 	concurrent bool
 }
